@@ -236,7 +236,7 @@ def _case(ctx, case, model_out=None):
 def gen_cases(ctx):
     rng = ctx.rng
     cases = []
-    for _ in range(ctx.n(260, 4000)):
+    for _ in range(ctx.n(1500, 15000)):
         kind = rng.choice([None, None, None, "spider", "chain", "star"])
         n = rng.choice([3, 4, 5, 6]) if kind else rng.choice([1, 1, 2, 3, 4, 5, 6])
         cases.append({"par": gen.random_parent_array(rng, n, kind), "seed": rng.randrange(10 ** 9),
